@@ -161,6 +161,9 @@ def run(ctx, model=None):
         check_case(ctx, gen.with_empty_action(gen.layered_tie_game(rng), rng), model)
         check_case(ctx, gen.integer_game(rng), None)
     through_run_games(ctx, rng, 12 if ctx.quick() else 300)
+    import analysis as _an0
+    _an0.optimized_interpreter(ctx, [gen.layered_tie_game(rng) for _ in range(6)] + [gen.stopping_game(rng, dead_frac=0.3) for _ in range(6)],
+                               "prob-under-min-reward", fields=[6, 7])
     N = 300 if ctx.quick() else 30000
     for k in range(N):
         g = gen.slow_cycle_game(rng) if k % 9 == 0 else gen.layered_tie_game(rng) if k % 2 == 0 else \
